@@ -227,7 +227,7 @@ func (w *runWorld) newServer(name string, parallel int, clean bool) *simServer {
 			}
 		}
 	}
-	srv.rec = &recCache{inner: inner, f: srv.f}
+	srv.rec = &recCache{inner: inner, f: srv.f, window: cfg.window}
 	if !clean {
 		srv.rec.rejectMiddle = cfg.eraseMode >= 1
 		srv.rec.rejectTrim = cfg.eraseMode >= 2
